@@ -215,7 +215,9 @@ macro_rules! float_entries { ($v:ident, $F:ty, $ft:expr, $WD:ident) => {{
     for (a, be) in [(1.0 as F, 0.0 as F), (2.0, 1.5), (1e2, -99.0), (1e-2, 0.0), (5.0, -4.0)] {
         ent!($v, "NormalInverseGaussian", $ft, "-", [a, be], NormalInverseGaussian::<F>::new(a, be).ok().and_then(b::<_, F>)); }
     let lam_max: F = if $ft == "f32" { 1e7 } else { 1e15 };
-    for (l, var) in [(0.5 as F, "Knuth"), (ulp_dn(12.0), "Knuth"), (12.0, "Rejection"), (ulp_up(12.0), "Rejection"), (100.0, "Rejection"), (100.25, "Rejection"), (lam_max, "Rejection"), (1e-3, "Knuth"), (if $ft == "f32" { 1e-9 } else { 1e-17f64 as F }, "Knuth")] {
+    for (l, var) in [(0.5 as F, "Knuth"), (ulp_dn(12.0), "Knuth"), (12.0, "Rejection"), (ulp_up(12.0), "Rejection"), (100.0, "Rejection"), (100.25, "Rejection"),
+                     // near-miss siblings: same integer part, different fraction (state keyed on a truncated parameter would collide)
+                     (12.25, "Rejection"), (12.75, "Rejection"), (13.5, "Rejection"), (20.25, "Rejection"), (20.5, "Rejection"), (lam_max, "Rejection"), (1e-3, "Knuth"), (if $ft == "f32" { 1e-9 } else { 1e-17f64 as F }, "Knuth")] {
         ent!($v, "Poisson", $ft, var, [l], Poisson::<F>::new(l).ok().and_then(b::<_, F>)); }
     let zn_max: F = if $ft == "f32" { 1e6 } else { 1e15 };
     for (n, s) in [(1.0 as F, 0.0 as F), (10.0, 0.0), (10.0, 1.0), (10.0, ulp_up(1.0)), (10.0, ulp_dn(1.0)), (1000.0, 0.5), (zn_max, 2.0), (10.0, 10.0), (1.0, 0.25), (2.0, 0.0)] {
@@ -355,7 +357,11 @@ pub fn registry() -> Vec<Entry> {
     for (nn, k, s, var) in [(10u64, 5u64, 5u64, "HIN"), (9, 3, 5, "HIN"), (9, 6, 4, "HIN"), (100, 30, 20, "HIN"), (100, 70, 80, "HIN"), (1000, 500, 500, "H2PE"), (1000, 501, 500, "H2PE"),
                             (10000, 5000, 300, "H2PE"), (10000, 7000, 9000, "H2PE"), (40, 20, 20, "H2PE"), (1u64 << 40, 1 << 39, 1000, "H2PE"), (50, 0, 10, "HIN"), (50, 50, 10, "HIN"),
                             // H2PE just above the HIN threshold (mode 10..12), plain and reflected
-                            (1000, 100, 105, "H2PE"), (5000, 60, 900, "H2PE"), (50000, 49900, 5300, "H2PE"), (3000, 2700, 2880, "H2PE"), (200000, 150, 15000, "H2PE")] {
+                            (1000, 100, 105, "H2PE"), (5000, 60, 900, "H2PE"), (50000, 49900, 5300, "H2PE"), (3000, 2700, 2880, "H2PE"), (200000, 150, 15000, "H2PE"),
+                            // huge modes (the squeeze must do the work: an exact evaluation of f(y) walks |y - m| ~ sqrt(N) steps)
+                            (1u64 << 40, 1 << 39, 1 << 39, "H2PE"), (1u64 << 56, 1 << 55, 1 << 54, "H2PE"), (1u64 << 62, 1 << 61, 1 << 61, "H2PE"),
+                            // optional: the constructor may refuse (PopulationTooLarge); if it builds a value, sampling it must not panic (F11)
+                            (1u64 << 62, 1 << 40, 1 << 61, "H2PE optional")] {
         ent!(v, "Hypergeometric", "int", var, [nn, k, s], Hypergeometric::new(nn, k, s).ok().and_then(b::<_, u64>)); }
     for ws in [vec![2u32, 1, 1], vec![0, 3, 7, 0, 1], vec![1; 17]] {
         let w2 = ws.clone(); let w3 = ws.clone();
